@@ -90,6 +90,12 @@ static void sched_pass(void)
 	atomic_store(&sched_turn, next);
 }
 
+void verif_sched_note(const char *txt)
+{
+	if(sched_on && sched_log && sched_id >= 0)
+		fprintf(sched_log, "# %d %s\n", sched_id, txt);
+}
+
 void verif_sched_register(int id)
 {
 	sched_id = id;
